@@ -34,7 +34,7 @@ Inductive report :=
 | RLit (w : list N)                                    (* a sequence of the literal key table *)
 | RXterm (k : kname) (mods : N) (alt_form : bool)      (* a key in the xterm PC-style / VT220-style encoding *)
 | RChar (c : N)                                        (* a printable character typed *)
-| RKittyKey (k : kname) (mods : N)
+| RKittyKey (k : kname) (mods : N) (alts : list (option N))   (* alternate key codes (shifted : base layout), possibly empty *)
 | RKeyLevel (flags : N)
 | RMouse (code : N) (press : bool) (row col : N)         (* SGR mouse report with the raw button code Cb *)
 | RCursor (row col : N)
@@ -162,14 +162,20 @@ Definition xterm_seq (k : kname) (mods : N) (alt_form : bool) : option (list N) 
         end
     end.
 
+(* kitty "report alternate keys": CSI unicode-key-code:shifted-key:base-layout-key ; modifiers u,
+   either alternate may be empty.  (Event types `modifiers:event` and the text field are sent only
+   under progressive-enhancement flags 2 and 16, which the library does not request.) *)
+Definition kitty_alts (alts : list (option N)) : list N :=
+  flat_map (fun a => 58 :: match a with Some x => digits x | None => [] end) alts.
+
 Definition print (r : report) : list N :=
   match r with
   | RLit w => w
   | RXterm k mods alt_form => match xterm_seq k mods alt_form with Some w => w | None => [] end
   | RChar c => utf8_encode c
-  | RKittyKey k mods =>
+  | RKittyKey k mods alts =>
       match kitty_code k with
-      | Some code => CSI ++ digits code ++ (if mods =? 0 then [] else [59] ++ digits (mods + 1)) ++ [117]
+      | Some code => CSI ++ (digits code ++ kitty_alts alts) ++ (if mods =? 0 then [] else [59] ++ digits (mods + 1)) ++ [117]
       | None => []
       end
   | RKeyLevel flags => CSI ++ [63] ++ digits flags ++ [117]
@@ -229,7 +235,7 @@ Definition denote (tab : list (list N * (kname * N))) (r : report) : tev :=
   | RLit w => match lit_lookup tab w with Some (k, mods) => EKey k mods | None => ERaw w end
   | RXterm k mods _ => EKey k mods
   | RChar c => EKey (KChar c) 0
-  | RKittyKey k mods => EKey k mods
+  | RKittyKey k mods _ => EKey k mods
   | RKeyLevel flags => EKeyLevel flags
   | RMouse code press row col =>
       match mouse_name code with
@@ -318,8 +324,8 @@ Section Wf.
     | RLit w => match lit_lookup lit_table w with Some _ => negb (bare_prefix w) | None => false end
     | RXterm k mods alt_form => match xterm_seq k mods alt_form with Some _ => true | None => false end
     | RChar c => printable c
-    | RKittyKey k mods =>
-        (mods <? 256)
+    | RKittyKey k mods alts =>
+        (mods <? 256) && forallb (fun a => match a with Some x => num_ok x | None => true end) alts
         && match k with
            | KEsc | KEnter | KTab | KBackspace => true
            | KF n => (13 <=? n) && (n <=? 35)
